@@ -12,6 +12,7 @@ type UnknownBox struct {
 	name       string
 	size       uint64
 	notDecoded []byte
+	largeSize  bool // box was read with a 16-byte (largesize) header, which is counted in size and written back
 }
 
 // DecodeUnknown - decode an unknown box
@@ -27,12 +28,13 @@ func DecodeUnknown(hdr BoxHeader, startPos uint64, r io.Reader) (Box, error) {
 // CreateUnknownBox creates an unknown box. Set the size to match
 // the payload size + header size to get a well-formed box.
 func CreateUnknownBox(name string, size uint64, payload []byte) *UnknownBox {
-	return &UnknownBox{name, size, payload}
+	return &UnknownBox{name, size, payload, false}
 }
 
 // DecodeUnknownSR - decode an unknown box
 func DecodeUnknownSR(hdr BoxHeader, startPos uint64, sr bits.SliceReader) (Box, error) {
-	return &UnknownBox{hdr.Name, hdr.Size, sr.ReadBytes(hdr.payloadLen())}, sr.AccError()
+	largeSize := hdr.Hdrlen == boxHeaderSize+largeSizeLen
+	return &UnknownBox{hdr.Name, hdr.Size, sr.ReadBytes(hdr.payloadLen()), largeSize}, sr.AccError()
 }
 
 // Type - return box type
@@ -63,7 +65,7 @@ func (b *UnknownBox) Encode(w io.Writer) error {
 
 // EncodeSW - box-specific encode to slicewriter
 func (b *UnknownBox) EncodeSW(sw bits.SliceWriter) error {
-	err := EncodeHeaderSW(b, sw)
+	err := EncodeHeaderWithSizeSW(b.name, b.size, b.largeSize, sw)
 	if err != nil {
 		return err
 	}
